@@ -178,10 +178,13 @@ def findlabels_pre_310(code, opc):
 NO_LINE_NUMBER = -128
 
 
-def findlinestarts(code, dup_lines=False):
+def findlinestarts(code, dup_lines=False, signed_line_deltas=True):
     """Find the offsets in a byte code which are start of lines in the source.
 
     Generate pairs (offset, lineno) as described in Python/compile.c.
+
+    ``signed_line_deltas`` should be False for bytecode before Python 3.6,
+    where the line increments of ``co_lnotab`` are unsigned bytes.
     """
 
     if hasattr(code, "co_lines"):
@@ -230,14 +233,20 @@ def findlinestarts(code, dup_lines=False):
                         return
                     offset += byte_incr
                     pass
-                if line_delta >= 0x80:
-                    # line_deltas is an array of 8-bit *signed* integers
+                if signed_line_deltas and line_delta >= 0x80:
+                    # Since 3.6, line_deltas is an array of 8-bit *signed* integers
                     line_delta -= 0x100
                 lineno += line_delta
             if lineno != lastlineno or (dup_lines and 0 < byte_incr < 255):
                 yield offset, lineno
 
     return
+
+
+def findlinestarts_pre36(code, dup_lines=False):
+    """findlinestarts() for bytecode before Python 3.6: ``co_lnotab`` line
+    increments are unsigned."""
+    return findlinestarts(code, dup_lines=dup_lines, signed_line_deltas=False)
 
 
 def instruction_size(op, opc):
